@@ -63,6 +63,7 @@ const (
 	c19InflightPre         // a reply is outstanding when the interval elapses (and still after)
 	c19RecvDuring          // probe times out, but a frame arrives after it went out
 	c19InflightPost        // probe times out, a data send became outstanding meanwhile
+	c19LocalSendFirst      // WE send a frame just before the interval elapses (no life from the peer), probe then times out
 	c19Kinds
 )
 
@@ -126,6 +127,12 @@ func VerifC19_LoopVT() {
 		switch script[round] {
 		case c19TrafficFirst:
 			tr.lastRecvStamp.Store(tr.monoNanos())
+			if suppress {
+				secondExpiry = true
+			}
+		case c19LocalSendFirst:
+			// our own traffic postpones the probe (rule 1) but proves nothing about the peer
+			tr.lastSendStamp.Store(tr.monoNanos())
 			if suppress {
 				secondExpiry = true
 			}
@@ -238,7 +245,7 @@ func VerifC19_LoopVT() {
 		// a peer that shows life in every round in a way the rules forgive is never dropped
 		forgiven := true
 		for _, k := range script {
-			if k == c19Silent || k == c19TrafficFirst {
+			if k == c19Silent || k == c19TrafficFirst || k == c19LocalSendFirst {
 				forgiven = false
 			}
 		}
